@@ -137,7 +137,7 @@ fn formatting(rep: &mut Report) {
         ("channel_message(TimingClock)", Box::new(|| { let _ = RawShortMessage::channel_message(ShortMessageType::TimingClock, ch(0), u7(0), u7(0)); })),
         ("test_util::u7(200)", Box::new(|| { let _ = helgoboss_midi::test_util::u7(200); })),
     ];
-    for (name, f) in probes.iter() {
+    for (name, f) in probes.iter().filter(|_| !crate::mon::ABORT_BUILD) {
         let r = api_probe("documented panic probes", || f());
         rep.evaluations += 1;
         if r.is_ok() {
